@@ -7,7 +7,9 @@ number forms, the corpus, random and alphabet strings; TV_Decoder requires accep
 and delivered calls = the specification's operation sequence, value by value (float bits)."""
 from lib import vlib, deccheck
 
-KINDS = {"unexpected call", "missing call", "call differs", "outcome differs"}
+# every cut point of an input is itself an input whose acceptance and deliveries are judged
+KINDS = {"unexpected call", "missing call", "call differs", "outcome differs",
+         "prefix (inside instruction)", "prefix (at boundary)", "prefix (after error)"}
 
 
 def run(ctx):
